@@ -21,7 +21,8 @@ class C10(Property):
         for _ in range(600 if thorough else 120):
             n = rng.choice([2, 3, 3, 4, 5])
             mode = rng.choice(MODES)
-            s = nu.mesh(rng, n, mode=mode, full=True)
+            gw = rng.randrange(1, n + 1) if (mode.startswith("tun") and rng.random() < 0.4) else None
+            s = nu.mesh(rng, n, mode=mode, full=True, gateway=gw)
             # settle the mesh (peer exchange)
             s.tick(2)
             frames = []
@@ -31,7 +32,9 @@ class C10(Property):
                 if mode.startswith("tun"):
                     if r < 0.6:
                         j = rng.randrange(1, n + 1)
-                        f = nu.ipv4_packet(nu.node_ip(i), nu.node_ip(j, rng.randrange(1, 4)), bytes([rng.randrange(256)]))
+                        # now and then a source address from another node's network (forwarded / spoofed traffic)
+                        srcn = i if rng.random() < 0.8 else rng.randrange(1, n + 1)
+                        f = nu.ipv4_packet(nu.node_ip(srcn, rng.randrange(1, 4)), nu.node_ip(j, rng.randrange(1, 4)), bytes([rng.randrange(256)]))
                     elif r < 0.8:
                         f = nu.ipv4_packet(nu.node_ip(i), bytes([192, 168, rng.randrange(3), 1]))
                     elif r < 0.9:
@@ -78,6 +81,9 @@ class C10(Property):
         if len(ops) != len(outs):
             return "driver returned %d results for %d ops" % (len(outs), len(ops))
         nnodes = sum(1 for t in ops if t.startswith("N."))
+        ntoks = [t.split(".") for t in ops if t.startswith("N.")]
+        mode = ntoks[0][2]
+        gateway = next((int(t[1]) for t in ntoks if "00000000/0" in t[6]), None)
         i = 0
         while i < len(ops):
             o, r = ops[i], outs[i]
@@ -92,6 +98,17 @@ class C10(Property):
                 dsts = [d for d, _ in sent]
                 if len(set(dsts)) != len(dsts):
                     return "frame sent twice to the same peer at op %d" % i
+                if mode == "tun-router" and len(frame) >= 40 and frame[0] == "4":
+                    # router mode: the peer selected for a packet is the one with the most specific claim, nobody otherwise
+                    dst = bytes.fromhex(frame)[16:20]
+                    # a node's table holds its peers' claims only: its own network is not a candidate
+                    j = dst[2] if (dst[0] == 10 and dst[1] == 0 and 1 <= dst[2] <= nnodes and dst[2] != src) else None
+                    if j is None and gateway is not None and gateway != src:
+                        j = gateway
+                    want = [j] if j is not None else []
+                    if sorted(dsts) != want:
+                        return "router mode: packet for %s read at node %d was sent to %s, the claims select %s" % (
+                            ".".join(str(b) for b in dst), src, sorted(dsts), want)
                 # the following A delivers; received payload must cause no datagram at all
                 a = outs[i + 1]
                 m = re.match(r"a(\d+)\[(.*)\]$", a)
